@@ -158,7 +158,8 @@ class IterativeTighteningSearch(Bounded, Generic[B]):
                 and self.best_match.bounds().dominates(node.item.bounds()):
             self._delete_node(node)
             return
-        elif self.initial_bounds.dominates(node.item.bounds()):
+        elif self.initial_bounds.upper_bound < node.item.bounds().lower_bound:
+            # strictly worse than the caller's bounds; a candidate that merely reaches the upper bound may be the optimum
             self._delete_node(node)
             return
         bounds: Range = node.item.bounds()
